@@ -1064,3 +1064,65 @@ Lemma salt_sensitive :
   c_lineage (out_core (fst (optimise current_code w_platform w_config 0 w_rng w_salty_oracles 9)))
   <> c_lineage (out_core (fst (optimise current_code w_platform w_config 1 w_rng w_salty_oracles 9))).
 Proof. vm_compute. discriminate. Qed.
+
+(* ===================================================================================== *)
+(* E. the executable comparison of exports decides equality                               *)
+(* ===================================================================================== *)
+Lemma opt_eqb_eq : forall A (eqb : A -> A -> bool), (forall a b, eqb a b = true <-> a = b) ->
+  forall x y, opt_eqb eqb x y = true <-> x = y.
+Proof.
+  intros A eqb He [x|] [y|]; simpl; try (split; [discriminate | discriminate]); try tauto.
+  rewrite He. split; [intros ->; reflexivity | intros E; inversion E; reflexivity].
+Qed.
+
+Lemma opkind_eqb_eq : forall a b, opkind_eqb a b = true <-> a = b.
+Proof. intros [] []; simpl; split; try discriminate; reflexivity. Qed.
+
+Lemma label_eqb_eq : forall a b, H.label_eqb a b = true <-> a = b.
+Proof. intros [] []; simpl; split; try discriminate; reflexivity. Qed.
+
+Lemma nats_eqb_eq : forall a b, nats_eqb a b = true <-> a = b.
+Proof. apply EP.list_eqb_eq. apply Nat.eqb_eq. Qed.
+
+Lemma oind_eqb_eq : forall a b, oind_eqb a b = true <-> a = b.
+Proof.
+  intros [u f s n p o on g] [u' f' s' n' p' o' on' g']. unfold oind_eqb. simpl.
+  rewrite !andb_true_iff, !Nat.eqb_eq, !nats_eqb_eq.
+  rewrite (opt_eqb_eq _ _ (EP.list_eqb_eq _ _ EP.Q_eqb_eq)), (opt_eqb_eq _ _ opkind_eqb_eq), (opt_eqb_eq _ _ Nat.eqb_eq).
+  split.
+  - intros [[[[[[[-> ->] ->] ->] ->] ->] ->] ->]. reflexivity.
+  - intros E. inversion E. tauto.
+Qed.
+
+Lemma ogen_eqb_eq : forall a b, ogen_eqb a b = true <-> a = b.
+Proof.
+  intros [n l m] [n' l' m']. unfold ogen_eqb. simpl.
+  rewrite !andb_true_iff, Nat.eqb_eq, label_eqb_eq, nats_eqb_eq. split.
+  - intros [[-> ->] ->]. reflexivity.
+  - intros E. inversion E. tauto.
+Qed.
+
+(* "identical histories" as computed on the observed exports is plain equality of the exports *)
+Theorem export_eqb_eq : forall a b, export_eqb a b = true <-> a = b.
+Proof.
+  intros [o g s i r] [o' g' s' i' r']. unfold export_eqb. simpl.
+  rewrite !andb_true_iff, Nat.eqb_eq, nats_eqb_eq.
+  rewrite (EP.list_eqb_eq _ _ ogen_eqb_eq), (EP.list_eqb_eq _ _ nats_eqb_eq), (EP.list_eqb_eq _ _ oind_eqb_eq).
+  split.
+  - intros [[[[-> ->] ->] ->] ->]. reflexivity.
+  - intros E. inversion E. tauto.
+Qed.
+
+Theorem holds_clause_spec : forall cl cs,
+  holds_clause cl cs = true <->
+  forall n x, In (cl, (n, x)) (k_others cs) -> x = k_base cs.
+Proof.
+  intros cl cs. unfold holds_clause. rewrite forallb_forall. split.
+  - intros Hf n x Hin. specialize (Hf _ Hin). simpl in Hf.
+    assert (C : clause_eqb cl cl = true) by (destruct cl; reflexivity).
+    rewrite C in Hf. simpl in Hf. apply export_eqb_eq in Hf. symmetry. exact Hf.
+  - intros Hs [cl' [n x]] Hin. simpl.
+    destruct (clause_eqb cl cl') eqn:C; [ | reflexivity]. simpl.
+    assert (cl = cl') by (destruct cl, cl'; simpl in C; try discriminate; reflexivity). subst cl'.
+    apply export_eqb_eq. symmetry. apply (Hs n x Hin).
+Qed.
